@@ -6,6 +6,10 @@ import random
 from gen import soup
 
 HAND = [
+    ("#[::entrait::entrait(pub T)]", "fn both0<D>(deps: &D, (a, b): (i32, i32), arg0: i32, _arg0: i32) -> i32 { a + b + arg0 + _arg0 }"),
+    ("#[::entrait::entrait(pub T)]", "fn both1<D>(deps: &D, arg1: u8, _: u8, _arg1: u8, __arg1: u8) -> u8 { arg1 }"),
+    ("#[::entrait::entrait(pub T, no_deps)]", "fn both2(_arg2: u8, arg2: u8, [x, y]: [u8; 2], __arg2: u8) -> u8 { x + y }"),
+    ("#[::entrait::entrait]", "pub trait BothT { fn m(&self, (a, b): (i32, i32), arg0: i32, _arg0: i32) -> i32; }"),
     ("#[::entrait::entrait(pub T)]", "fn many<D>(deps: &D, _: u8, (a, b): (u8, u8), _: u16, [x, y]: [u8; 2], _: u32, arg1: u8, _arg3: u8) {}"),
     ("#[::entrait::entrait(pub T, no_deps)]", "fn nd(_: u8, _: u8, _: u8, _: u8, _: u8, _: u8) -> u8 { 0 }"),
     ("#[::entrait::entrait(pub T, mock_api=Mk, unimock)]", "fn mocked<D>(deps: &D, _: u8, s: &str, _: u8) -> u8 { 0 }"),
